@@ -1026,6 +1026,7 @@ func litestream.(*DB).Snapshot(db, ctx) (info, err)
 // ---------------------------------------------------------------------------
 // C18 (build tag vfs): one poll of one level of the VFS read replica. Applied files are the listed files
 // [c18_first, c18_first + c18_n).
+pred pidom(m map[uint32]ltx.PageIndexElem) = dom(m)
 ghost c18_first Int
 ghost c18_n Int
 
@@ -1040,13 +1041,15 @@ func litestream.(*VFSFile).pollLevel(f, ctx, level, prevMaxTXID, baseCommit) (rm
   at litestream.FetchLTXHeader#1 set c18_n = ($result1 == nil ? c18_n + 1 : c18_n)
   ensures [C18.max] err == nil ==> rmax == (c18_n == 0 ? prevMaxTXID : fmax(item(itr, c18_first + c18_n - 1))) && rmax >= prevMaxTXID
   ensures [C18.commit-last] err == nil ==> rcommit == (c18_n == 0 ? baseCommit : hcommit(item(itr, c18_first + c18_n - 1)))
-  ensures [C18.index-within-commit] err == nil ==> rindex != nil && (forall p int :: {has(rindex, p)} has(rindex, p) ==> p <= rcommit)
+  ensures [C18.index-within-commit] err == nil ==> rindex != nil && fresh(rindex) && (forall p int :: {has(rindex, p)} has(rindex, p) ==> p <= rcommit)
   ensures [C18.index-from-files] err == nil ==> (forall p int :: {has(rindex, p)} has(rindex, p) ==> (exists k int :: {item(itr, k)} c18_first <= k && k < c18_first + c18_n && inIdx(item(itr, k), p)))
   ensures [C18.poll-complete] err == nil ==> (forall k int, p int :: {inIdx(item(itr, k), p)} c18_first <= k && k < c18_first + c18_n && inIdx(item(itr, k), p) && p <= rcommit ==> has(rindex, p))
   ensures [C18.poll-complete-noshrink] err == nil && !rreplace ==> (forall k int, p int :: {inIdx(item(itr, k), p)} c18_first <= k && k < c18_first + c18_n && inIdx(item(itr, k), p) ==> has(rindex, p))
   ensures [C18.no-replace-without-shrink] err == nil && rreplace ==> c18_n >= 1
+  ensures (forall m int :: {pidom(m)} old(allocated(m)) ==> pidom(m) == old(pidom(m)))
   loop 0 invariant f == old(f) && f.client == old(f.client) && level == old(level) && itr != nil && itOK(itr) && it_client[itr] == f.client && it_level[itr] == level && wfLevel(f.client, level)
   loop 0 invariant c18_first == seekIdx(f.client, level, prevMaxTXID + 1) && 0 <= c18_n && it_idx[itr] == c18_first + c18_n
+  loop 0 invariant (forall m int :: {pidom(m)} old(allocated(m)) ==> pidom(m) == old(pidom(m)))
   loop 0 invariant maxTXID == (c18_n == 0 ? prevMaxTXID : fmax(item(itr, it_idx[itr] - 1))) && 0 <= maxTXID && maxTXID < 9223372036854775807
   loop 0 invariant newCommit == (c18_n == 0 ? baseCommit : hcommit(item(itr, it_idx[itr] - 1))) && lastCommit == newCommit && (replaceIndex ==> c18_n >= 1)
   loop 0 invariant index != nil && fresh(index) && (forall p int :: {has(index, p)} has(index, p) ==> p <= newCommit)
@@ -1054,6 +1057,7 @@ func litestream.(*VFSFile).pollLevel(f, ctx, level, prevMaxTXID, baseCommit) (rm
   loop 0 invariant [C18.poll-complete] (forall k int, p int :: {inIdx(item(itr, k), p)} c18_first <= k && k < c18_first + c18_n && inIdx(item(itr, k), p) && p <= newCommit ==> has(index, p))
   loop 0 invariant !replaceIndex ==> (forall k int, p int :: {inIdx(item(itr, k), p)} c18_first <= k && k < c18_first + c18_n && inIdx(item(itr, k), p) ==> has(index, p))
   loop 1 invariant f == old(f) && f.client == old(f.client) && itr != nil && itOK(itr) && it_client[itr] == f.client && it_level[itr] == level && info == item(itr, it_idx[itr] - 1) && it_idx[itr] == c18_first + c18_n && c18_n >= 1
+  loop 1 invariant (forall m int :: {pidom(m)} old(allocated(m)) ==> pidom(m) == old(pidom(m))) && fresh(idx)
   loop 1 invariant index != nil && fresh(index) && idx != nil && idx != index && newCommit == hcommit(info) && (forall p int :: {has(index, p)} has(index, p) ==> p <= newCommit)
   loop 1 invariant (forall p int :: {has(idx, p)} has(idx, p) <==> inIdx(info, p)) && (forall p int :: {visited(0)[p]} visited(0)[p] ==> has(index, p))
   loop 1 invariant (forall p int :: {inIdx(info, p)} inIdx(info, p) ==> has(idx, p))
@@ -1163,4 +1167,28 @@ func litestream.(*VFSFile).buildIndexMap(f, ctx, infos) (index, err)
 // C03: start-up cleanup removes only staged (".tmp") files, never a published file.
 func litestream.removeTmpFiles$1(path, info, err) (res)
   at os.Remove#all assert [C03.cleanup-only-tmp] $arg0 == path && hasSuffix(path, ".tmp") && err == nil
+
+// One poll of the VFS read replica: level 0 from the current position, level 1 from its own high-water mark;
+// the position becomes the larger of the two; without readers the main index keeps the invariant
+// "no page beyond the database size".
+ghost c18_l0max Int
+ghost c18_l1max Int
+func litestream.(*VFSFile).pollReplicaClient(f, ctx) (err)
+  requires f != nil && f.client != nil && f.index != nil && f.pending != nil
+  modifies $heap, $alloc, it_idx, c18_first, c18_n, c18_l0max, c18_l1max
+  at litestream.(*VFSFile).pollLevel#all reset c18_n = 0
+  at litestream.(*VFSFile).pollLevel#1 assert [C18.poll-l0-from-pos] $arg1 == 0 && $arg2 == pos.TXID && $arg3 == baseCommit
+  at litestream.(*VFSFile).pollLevel#1 set c18_l0max = $result0
+  at litestream.(*VFSFile).pollLevel#2 assert [C18.poll-l1-from-mark] $arg1 == 1 && $arg2 == maxTXID1Snapshot
+  at litestream.(*VFSFile).pollLevel#2 set c18_l1max = $result0
+  ensures [C18.pos-after-poll] err == nil && old(f.targetTime) == nil ==> f.pos.TXID == max(c18_l0max, c18_l1max) && f.maxTXID1 == c18_l1max
+  ensures [C18.index-within-commit-after-poll] err == nil && old(f.targetTime) == nil && old(f.lockType) < 1 && old(forall p int :: {has(f.index, p)} has(f.index, p) ==> p <= f.commit) ==> (forall p int :: {has(f.index, p)} has(f.index, p) ==> p <= f.commit)
+  loop 0 invariant f == old(f) && combined != nil && idx0 != nil && idx0 != combined && fresh(combined) && !replaceIndex && f.index == old(f.index) && f.commit == old(f.commit) && pidom(f.index) == old(pidom(f.index))
+  loop 0 invariant (forall p int :: {has(combined, p)} has(combined, p) ==> p <= commit0) && (forall p int :: {has(idx0, p)} has(idx0, p) ==> p <= commit0)
+  loop 1 invariant f == old(f) && combined != nil && idx1 != nil && idx1 != combined && f.index == old(f.index) && f.commit == old(f.commit) && pidom(f.index) == old(pidom(f.index)) && combined != f.index
+  loop 1 invariant (forall p int :: {has(combined, p)} has(combined, p) ==> p <= max(newCommit, commit1)) && (forall p int :: {has(idx1, p)} has(idx1, p) ==> p <= commit1)
+  loop 1 invariant !replaceIndex ==> newCommit >= old(f.commit)
+  loop 2 invariant f == old(f) && combined != nil && target != nil && combined != target && (targetIsMain ==> target == f.index) && f.commit == old(f.commit) && (old(f.lockType) < 1 ==> targetIsMain) && (!replaceIndex ==> newCommit >= old(f.commit))
+  loop 2 invariant (forall p int :: {has(combined, p)} has(combined, p) ==> p <= newCommit)
+  loop 2 invariant targetIsMain && old(forall p int :: {has(f.index, p)} has(f.index, p) ==> p <= f.commit) ==> (forall p int :: {has(f.index, p)} has(f.index, p) ==> p <= (replaceIndex ? newCommit : ((len(combined) > 0 && newCommit > f.commit) ? newCommit : f.commit)))
 */
